@@ -4,7 +4,10 @@
 package sx
 
 import (
+	"bufio"
 	"encoding/hex"
+	"encoding/json"
+	"io"
 	"strconv"
 	"strings"
 )
@@ -83,3 +86,28 @@ func Fork(seed uint64, i uint64) *Rng {
 
 // Pick returns one element of xs.
 func Pick[T any](r *Rng, xs []T) T { return xs[r.Intn(len(xs))] }
+
+// Out writes the harness protocol: one JSON object per line.
+type Out struct{ w *bufio.Writer }
+
+func NewOut(f io.Writer) *Out { return &Out{w: bufio.NewWriterSize(f, 1<<20)} }
+func (o *Out) Flush()         { o.w.Flush() }
+
+// Case emits one case: the Coq term the judge is applied to, a readable
+// description (also what a replay file shows), an input class and whether the
+// case is non-trivial by the property's rule.
+func (o *Out) Case(coq string, desc interface{}, cls string, nontrivial bool) {
+	b, _ := json.Marshal(map[string]interface{}{"coq": coq, "desc": desc, "cls": cls, "nt": nontrivial})
+	o.w.Write(b)
+	o.w.WriteByte('\n')
+}
+
+// Meta emits run-level counters that end up in the evidence file.
+func (o *Out) Meta(m map[string]interface{}) {
+	b, _ := json.Marshal(map[string]interface{}{"meta": m})
+	o.w.Write(b)
+	o.w.WriteByte('\n')
+}
+
+// Hx renders bytes as the Coq term (hx "..") of type str.
+func Hx(b []byte) string { return `(hx "` + hex.EncodeToString(b) + `")` }
